@@ -808,7 +808,15 @@ def c06_r6(ctx: Ctx, rule):
                             idx = ps.index(it.id) if it.id in ps else None
                             if idx is not None and idx < len(c2.args) and isinstance(c2.args[idx], ast.Name):
                                 defs = _all_assignments(bf.node, c2.args[idx].id)
-                src_ok = len(defs) == 1 and isinstance(defs[0], ast.Call) and call_name(defs[0]) in ("get_registered_namespaces",) and "self" in norm(defs[0].func.value)
+                def base_src(d):
+                    return isinstance(d, ast.Call) and call_name(d) in ("get_registered_namespaces",) and "self" in norm(d.func.value)
+
+                def permutation(d):
+                    # the same namespaces in another order: sorted(x, ..) / list(x) / tuple(x) / reversed(x) of the list itself
+                    return isinstance(d, ast.Call) and isinstance(d.func, ast.Name) and d.func.id in ("sorted", "list", "tuple", "reversed") and d.args and \
+                        ((isinstance(d.args[0], ast.Name) and d.args[0].id == it.id) or base_src(d.args[0]))
+
+                src_ok = bool(defs) and all(d is not None and (base_src(d) or permutation(d)) for d in defs) and any(base_src(d) or (permutation(d) and base_src(d.args[0])) for d in defs)
             elif isinstance(it, ast.Call):
                 src_ok = call_name(it) == "get_registered_namespaces" and "self" in norm(it.func.value)
             res.ob("`prefix` lines are printed for every registered namespace of this container (unfiltered, single source): %s" % (not filtered and src_ok))
@@ -1110,6 +1118,20 @@ def c10_r3(ctx: Ctx, rule):
                     v = ctx.eval_in(q, n.right)
                     if isinstance(v, (list, tuple)) and all(isinstance(x, QN) for x in v):
                         formal_first, ext_list, order_var = True, list(v), "<expr>"
+    if ext_list is None:
+        # alternative spelling: order = [*FORMAL, PROV_LABEL, ...]
+        for n in walk_function(fi.node):
+            if isinstance(n, (ast.List, ast.Tuple)) and n.elts and isinstance(n.elts[0], ast.Starred) and any(isinstance(x, ast.Attribute) and x.attr == "FORMAL_ATTRIBUTES" for x in ast.walk(n.elts[0])):
+                try:
+                    v = [ctx.eval_in(q, e) for e in n.elts[1:]]
+                except AnalysisError:
+                    continue
+                if v and all(isinstance(x, QN) for x in v):
+                    formal_first, ext_list, order_var = True, v, "<expr>"
+                    # the name the display is bound to, if any, is what the filling loop walks
+                    for a in walk_function(fi.node):
+                        if isinstance(a, ast.Assign) and a.value is n and isinstance(a.targets[0], ast.Name):
+                            order_var = a.targets[0].id
     if ext_list is None or not formal_first:
         raise AnalysisError("cannot extract the attribute order built by sorted_attributes")
     res.ob("order starts with the record class's FORMAL_ATTRIBUTES: %s" % formal_first)
